@@ -344,6 +344,14 @@ pub const MTIME_SECS: &[i64] = &[
     2147483647,
     2147483648,
     8589934592,
+    // beyond +-292 years from the epoch a nanosecond count no longer fits in 64 bits
+    9_300_000_000,
+    -9_300_000_000,
+    20_000_000_000,
+    -30_000_000_000,
+    // near the ends of what a calendar with four-digit years can hold
+    253_000_000_000,
+    -62_000_000_000,
 ];
 pub const MTIME_NANOS: &[u32] = &[0, 1, 500_000_000, 999_999_999];
 
